@@ -5,7 +5,7 @@ Import ListNotations.
 Open Scope string_scope.
 
 
-(* saml2/response.py:AuthnResponse.parse_assertion (the bytes/str block dropped, the saml:Advice block cut out, nested attribute assignments split by harness/c01.py:_DesugarPA), lines 933-1039 *)
+(* saml2/response.py:AuthnResponse.parse_assertion (the bytes/str block dropped, the saml:Advice block cut out, nested attribute assignments split by harness/c01.py:_DesugarPA), lines 933-1046 *)
 Definition src2_parse_assertion (fuel : nat) (assertion_ext : pyval -> pyval -> pyval -> pyval) (find_encrypt_data : pyval -> pyval -> pyval) (find_list : pyval -> pyval -> pyval) (decrypt_keys : pyval -> pyval -> pyval -> pyval) (response_from_string : pyval -> pyval) (decrypt_assertions : pyval -> pyval -> pyval -> pyval -> pyval -> pyval) (get_identity : pyval -> pyval) (str_ext : pyval -> pyval) (v_self : pyval) (v_keys : pyval) : pyval :=
   let v_n_assertions := PErr in
   let v_n_assertions_enc := PErr in
@@ -16,11 +16,11 @@ Definition src2_parse_assertion (fuel : nat) (assertion_ext : pyval -> pyval -> 
   let v_decr_text_old := PErr in
   let v_all_assertions := PErr in
   let v_self_response := PErr in
-  (let k_113 := fun v_n_assertions v_n_assertions_enc =>
-    (let k_107 := fun v_assertion =>
-     (let k_97 := fun v__enc_assertions v_resp v_decr_text v_decr_text_old v_all_assertions v_self_response v_self v_assertion =>
-      (let k_19 := fun v_assertion v_self =>
-       (let k_10 := fun v_self =>
+  (let k_116 := fun v_n_assertions v_n_assertions_enc =>
+    (let k_110 := fun v_assertion =>
+     (let k_100 := fun v__enc_assertions v_resp v_decr_text v_decr_text_old v_all_assertions v_self_response v_self v_assertion =>
+      (let k_22 := fun v_assertion v_self =>
+       (let k_13 := fun v_self =>
         (match p2_branch (p2_or (p2_eq (p2_attr v_self "context") (PStr "AuthnReq")) (p2_eq (p2_attr v_self "context") (PStr "AttrQuery"))) with
         | BTrue => (py_bindh (fun n_4 => (PList [(PExc n_4); v_self])) (get_identity v_self) (fun a_2 =>
         (py_bindh (fun n_3 => (PList [(PExc n_3); v_self])) (p2_setattr v_self "ava" a_2) (fun v_self =>
@@ -30,160 +30,166 @@ Definition src2_parse_assertion (fuel : nat) (assertion_ext : pyval -> pyval -> 
         | BErr => PErr
         end) in
        (match p2_branch (p2_and (p2_attr v_self "assertions") (p2_gt (p2_len (p2_attr v_self "assertions")) (PInt (0)%Z))) with
-       | BTrue => (py_bindh (fun n_9 => (PList [(PExc n_9); v_self])) (p2_getitem (p2_attr v_self "assertions") (PInt (0)%Z)) (fun a_7 =>
+       | BTrue => (match p2_branch (p2_and (p2_ne (p2_attr v_self "context") (PStr "AuthnQuery")) (p2_and (p2_gt (p2_len (p2_attr v_self "assertions")) (PInt (1)%Z)) (p2_not (p2_attr (p2_attr v_self "response") "signature")))) with
+       | BTrue => (py_bindh (fun n_11 => (PList [(PExc n_11); v_self])) (p2_fconcat [PStr "Invalid number of assertions in Response: "; p2_str (p2_len (p2_attr v_self "assertions"))]) (fun _ =>
+       (PList [(PExc "InvalidAssertion"); v_self])))
+       | BFalse => (py_bindh (fun n_9 => (PList [(PExc n_9); v_self])) (p2_getitem (p2_attr v_self "assertions") (PInt (0)%Z)) (fun a_7 =>
        (py_bindh (fun n_8 => (PList [(PExc n_8); v_self])) (p2_setattr v_self "assertion" a_7) (fun v_self =>
-       (k_10 v_self)))))
-       | BFalse => (k_10 v_self)
-       | BExc n_10 => (PList [(PExc n_10); v_self])
+       (k_13 v_self)))))
+       | BExc n_12 => (PList [(PExc n_12); v_self])
+       | BErr => PErr
+       end)
+       | BFalse => (k_13 v_self)
+       | BExc n_13 => (PList [(PExc n_13); v_self])
        | BErr => PErr
        end)) in
       (match p2_branch (p2_attr (p2_attr v_self "response") "assertion") with
-      | BTrue => (py_bindh (fun n_18 => (PList [(PExc n_18); v_self])) (p2_iter_check (p2_attr (p2_attr v_self "response") "assertion")) (fun it_12 =>
-      (match pyfor2 (py_iter2 it_12) [v_assertion; v_self] (fun st_13 x_14 => match st_13 with [v_assertion; v_self] =>
-       (let v_assertion := x_14 in
-       (py_bindS (fun n_17 => (ExcS n_17 [v_assertion; v_self])) (p2_setattr v_self "assertions" (p2_append (p2_attr v_self "assertions") v_assertion)) (fun v_self =>
+      | BTrue => (py_bindh (fun n_21 => (PList [(PExc n_21); v_self])) (p2_iter_check (p2_attr (p2_attr v_self "response") "assertion")) (fun it_15 =>
+      (match pyfor2 (py_iter2 it_15) [v_assertion; v_self] (fun st_16 x_17 => match st_16 with [v_assertion; v_self] =>
+       (let v_assertion := x_17 in
+       (py_bindS (fun n_20 => (ExcS n_20 [v_assertion; v_self])) (p2_setattr v_self "assertions" (p2_append (p2_attr v_self "assertions") v_assertion)) (fun v_self =>
        (NextS [v_assertion; v_self]))))
       | _ => RetS PErr end) with
-      | NextS st_13 => match st_13 with [v_assertion; v_self] => (k_19 v_assertion v_self) | _ => PErr end
+      | NextS st_16 => match st_16 with [v_assertion; v_self] => (k_22 v_assertion v_self) | _ => PErr end
       | BrkS _ => PErr
-      | RetS r_15 => r_15
-      | ExcS n_16 st_13 => match st_13 with [v_assertion; v_self] => (PList [(PExc n_16); v_self]) | _ => PErr end
+      | RetS r_18 => r_18
+      | ExcS n_19 st_16 => match st_16 with [v_assertion; v_self] => (PList [(PExc n_19); v_self]) | _ => PErr end
       end)))
-      | BFalse => (k_19 v_assertion v_self)
-      | BExc n_19 => (PList [(PExc n_19); v_self])
+      | BFalse => (k_22 v_assertion v_self)
+      | BExc n_22 => (PList [(PExc n_22); v_self])
       | BErr => PErr
       end)) in
-     (match p2_branch (py_bind (p2_attr v_self "response") (fun a_21 => (find_encrypt_data v_self a_21))) with
+     (match p2_branch (py_bind (p2_attr v_self "response") (fun a_24 => (find_encrypt_data v_self a_24))) with
      | BTrue => (let v__enc_assertions := (PList []) in
-     (py_bindh (fun n_96 => (PList [(PExc n_96); v_self])) (p2_attr v_self "response") (fun v_resp =>
-     (py_bindh (fun n_95 => (PList [(PExc n_95); v_self])) (py_bind (p2_attr v_self "response") (fun a_22 => (str_ext a_22))) (fun v_decr_text =>
+     (py_bindh (fun n_99 => (PList [(PExc n_99); v_self])) (p2_attr v_self "response") (fun v_resp =>
+     (py_bindh (fun n_98 => (PList [(PExc n_98); v_self])) (py_bind (p2_attr v_self "response") (fun a_25 => (str_ext a_25))) (fun v_decr_text =>
      (let v_decr_text_old := PNone in
-     (match pywhile2 fuel [v_decr_text_old; v_decr_text; v_resp] (fun st_83 => match st_83 with [v_decr_text_old; v_decr_text; v_resp] => (p2_and (py_bind v_resp (fun a_94 => (find_encrypt_data v_self a_94))) (p2_ne v_decr_text_old v_decr_text)) | _ => PErr end)
-     (fun st_83 => match st_83 with [v_decr_text_old; v_decr_text; v_resp] =>
-      (py_bindS (fun n_93 => (ExcS n_93 [v_decr_text_old; v_decr_text; v_resp])) v_decr_text (fun v_decr_text_old =>
-      (py_bindS (fun n_92 => (if exc_matches n_92 ["DecryptError"]
+     (match pywhile2 fuel [v_decr_text_old; v_decr_text; v_resp] (fun st_86 => match st_86 with [v_decr_text_old; v_decr_text; v_resp] => (p2_and (py_bind v_resp (fun a_97 => (find_encrypt_data v_self a_97))) (p2_ne v_decr_text_old v_decr_text)) | _ => PErr end)
+     (fun st_86 => match st_86 with [v_decr_text_old; v_decr_text; v_resp] =>
+      (py_bindS (fun n_96 => (ExcS n_96 [v_decr_text_old; v_decr_text; v_resp])) v_decr_text (fun v_decr_text_old =>
+      (py_bindS (fun n_95 => (if exc_matches n_95 ["DecryptError"]
       then (NextS [v_decr_text_old; v_decr_text; v_resp])
-      else (ExcS n_92 [v_decr_text_old; v_decr_text; v_resp]))) (py_bind v_decr_text (fun a_90 => (py_bind v_keys (fun a_91 => (decrypt_keys v_self a_90 a_91))))) (fun v_decr_text =>
-      (py_bindS (fun n_88 => (ExcS n_88 [v_decr_text_old; v_decr_text; v_resp])) (py_bind v_decr_text (fun a_87 => (response_from_string a_87))) (fun v_resp =>
+      else (ExcS n_95 [v_decr_text_old; v_decr_text; v_resp]))) (py_bind v_decr_text (fun a_93 => (py_bind v_keys (fun a_94 => (decrypt_keys v_self a_93 a_94))))) (fun v_decr_text =>
+      (py_bindS (fun n_91 => (ExcS n_91 [v_decr_text_old; v_decr_text; v_resp])) (py_bind v_decr_text (fun a_90 => (response_from_string a_90))) (fun v_resp =>
       (NextS [v_decr_text_old; v_decr_text; v_resp])))))))
      | _ => RetS PErr end) with
-     | NextS st_83 => match st_83 with [v_decr_text_old; v_decr_text; v_resp] => (py_bindh (fun n_81 => (PList [(PExc n_81); v_self])) (py_bind (p2_attr v_resp "encrypted_assertion") (fun a_23 => (py_bind v_decr_text (fun a_24 => (decrypt_assertions v_self a_23 a_24 PNone (PBool false)))))) (fun v__enc_assertions =>
+     | NextS st_86 => match st_86 with [v_decr_text_old; v_decr_text; v_resp] => (py_bindh (fun n_84 => (PList [(PExc n_84); v_self])) (py_bind (p2_attr v_resp "encrypted_assertion") (fun a_26 => (py_bind v_decr_text (fun a_27 => (decrypt_assertions v_self a_26 a_27 PNone (PBool false)))))) (fun v__enc_assertions =>
      (let v_decr_text_old := PNone in
-     (match pywhile2 fuel [v_decr_text_old; v_decr_text; v_resp; v__enc_assertions] (fun st_65 => match st_65 with [v_decr_text_old; v_decr_text; v_resp; v__enc_assertions] => (p2_and (p2_or (py_bind v_resp (fun a_79 => (find_encrypt_data v_self a_79))) (py_bind v__enc_assertions (fun a_80 => (find_list v_self a_80)))) (p2_ne v_decr_text_old v_decr_text)) | _ => PErr end)
-     (fun st_65 => match st_65 with [v_decr_text_old; v_decr_text; v_resp; v__enc_assertions] =>
-      (py_bindS (fun n_78 => (ExcS n_78 [v_decr_text_old; v_decr_text; v_resp; v__enc_assertions])) v_decr_text (fun v_decr_text_old =>
-      (py_bindS (fun n_77 => (if exc_matches n_77 ["DecryptError"]
+     (match pywhile2 fuel [v_decr_text_old; v_decr_text; v_resp; v__enc_assertions] (fun st_68 => match st_68 with [v_decr_text_old; v_decr_text; v_resp; v__enc_assertions] => (p2_and (p2_or (py_bind v_resp (fun a_82 => (find_encrypt_data v_self a_82))) (py_bind v__enc_assertions (fun a_83 => (find_list v_self a_83)))) (p2_ne v_decr_text_old v_decr_text)) | _ => PErr end)
+     (fun st_68 => match st_68 with [v_decr_text_old; v_decr_text; v_resp; v__enc_assertions] =>
+      (py_bindS (fun n_81 => (ExcS n_81 [v_decr_text_old; v_decr_text; v_resp; v__enc_assertions])) v_decr_text (fun v_decr_text_old =>
+      (py_bindS (fun n_80 => (if exc_matches n_80 ["DecryptError"]
       then (NextS [v_decr_text_old; v_decr_text; v_resp; v__enc_assertions])
-      else (ExcS n_77 [v_decr_text_old; v_decr_text; v_resp; v__enc_assertions]))) (py_bind v_decr_text (fun a_75 => (py_bind v_keys (fun a_76 => (decrypt_keys v_self a_75 a_76))))) (fun v_decr_text =>
-      (py_bindS (fun n_73 => (ExcS n_73 [v_decr_text_old; v_decr_text; v_resp; v__enc_assertions])) (py_bind v_decr_text (fun a_69 => (response_from_string a_69))) (fun v_resp =>
-      (py_bindS (fun n_72 => (ExcS n_72 [v_decr_text_old; v_decr_text; v_resp; v__enc_assertions])) (py_bind (p2_attr v_resp "encrypted_assertion") (fun a_70 => (py_bind v_decr_text (fun a_71 => (decrypt_assertions v_self a_70 a_71 PNone (PBool true)))))) (fun v__enc_assertions =>
+      else (ExcS n_80 [v_decr_text_old; v_decr_text; v_resp; v__enc_assertions]))) (py_bind v_decr_text (fun a_78 => (py_bind v_keys (fun a_79 => (decrypt_keys v_self a_78 a_79))))) (fun v_decr_text =>
+      (py_bindS (fun n_76 => (ExcS n_76 [v_decr_text_old; v_decr_text; v_resp; v__enc_assertions])) (py_bind v_decr_text (fun a_72 => (response_from_string a_72))) (fun v_resp =>
+      (py_bindS (fun n_75 => (ExcS n_75 [v_decr_text_old; v_decr_text; v_resp; v__enc_assertions])) (py_bind (p2_attr v_resp "encrypted_assertion") (fun a_73 => (py_bind v_decr_text (fun a_74 => (decrypt_assertions v_self a_73 a_74 PNone (PBool true)))))) (fun v__enc_assertions =>
       (NextS [v_decr_text_old; v_decr_text; v_resp; v__enc_assertions])))))))))
      | _ => RetS PErr end) with
-     | NextS st_65 => match st_65 with [v_decr_text_old; v_decr_text; v_resp; v__enc_assertions] => (py_bindh (fun n_63 => (PList [(PExc n_63); v_self])) v__enc_assertions (fun v_all_assertions =>
-     (let k_62 := fun v_all_assertions =>
-      (let k_59 := fun (_ : unit) =>
-       (py_bindh (fun n_50 => (PList [(PExc n_50); v_self])) (p2_attr v_self "response") (fun v_self_response =>
-       (py_bindh (fun n_49 => (PList [(PExc n_49); v_self])) (p2_attr v_resp "assertion") (fun a_25 =>
-       (py_bindh (fun n_48 => (PList [(PExc n_48); v_self])) (p2_setattr v_self_response "assertion" a_25) (fun v_self_response =>
-       (py_bindh (fun n_47 => (PList [(PExc n_47); v_self])) v_self_response (fun a_26 =>
-       (py_bindh (fun n_46 => (PList [(PExc n_46); v_self])) (p2_setattr v_self "response" a_26) (fun v_self =>
-       (py_bindh (fun n_45 => (PList [(PExc n_45); v_self])) (p2_iter_check v__enc_assertions) (fun it_37 =>
-       (match pyfor2 (py_iter2 it_37) [v_assertion; v_self] (fun st_38 x_39 => match st_38 with [v_assertion; v_self] =>
-        (let v_assertion := x_39 in
-        (match p2_branch (p2_not (py_bind v_assertion (fun a_42 => (assertion_ext v_self a_42 (PBool true))))) with
+     | NextS st_68 => match st_68 with [v_decr_text_old; v_decr_text; v_resp; v__enc_assertions] => (py_bindh (fun n_66 => (PList [(PExc n_66); v_self])) v__enc_assertions (fun v_all_assertions =>
+     (let k_65 := fun v_all_assertions =>
+      (let k_62 := fun (_ : unit) =>
+       (py_bindh (fun n_53 => (PList [(PExc n_53); v_self])) (p2_attr v_self "response") (fun v_self_response =>
+       (py_bindh (fun n_52 => (PList [(PExc n_52); v_self])) (p2_attr v_resp "assertion") (fun a_28 =>
+       (py_bindh (fun n_51 => (PList [(PExc n_51); v_self])) (p2_setattr v_self_response "assertion" a_28) (fun v_self_response =>
+       (py_bindh (fun n_50 => (PList [(PExc n_50); v_self])) v_self_response (fun a_29 =>
+       (py_bindh (fun n_49 => (PList [(PExc n_49); v_self])) (p2_setattr v_self "response" a_29) (fun v_self =>
+       (py_bindh (fun n_48 => (PList [(PExc n_48); v_self])) (p2_iter_check v__enc_assertions) (fun it_40 =>
+       (match pyfor2 (py_iter2 it_40) [v_assertion; v_self] (fun st_41 x_42 => match st_41 with [v_assertion; v_self] =>
+        (let v_assertion := x_42 in
+        (match p2_branch (p2_not (py_bind v_assertion (fun a_45 => (assertion_ext v_self a_45 (PBool true))))) with
         | BTrue => (RetS (PList [(PBool false); v_self]))
-        | BFalse => (py_bindS (fun n_43 => (ExcS n_43 [v_assertion; v_self])) (p2_setattr v_self "assertions" (p2_append (p2_attr v_self "assertions") v_assertion)) (fun v_self =>
+        | BFalse => (py_bindS (fun n_46 => (ExcS n_46 [v_assertion; v_self])) (p2_setattr v_self "assertions" (p2_append (p2_attr v_self "assertions") v_assertion)) (fun v_self =>
         (NextS [v_assertion; v_self])))
-        | BExc n_44 => (ExcS n_44 [v_assertion; v_self])
+        | BExc n_47 => (ExcS n_47 [v_assertion; v_self])
         | BErr => (RetS PErr)
         end))
        | _ => RetS PErr end) with
-       | NextS st_38 => match st_38 with [v_assertion; v_self] => (py_bindh (fun n_35 => (PList [(PExc n_35); v_self])) v_decr_text (fun a_27 =>
-       (py_bindh (fun n_34 => (PList [(PExc n_34); v_self])) (p2_setattr v_self "xmlstr" a_27) (fun v_self =>
+       | NextS st_41 => match st_41 with [v_assertion; v_self] => (py_bindh (fun n_38 => (PList [(PExc n_38); v_self])) v_decr_text (fun a_30 =>
+       (py_bindh (fun n_37 => (PList [(PExc n_37); v_self])) (p2_setattr v_self "xmlstr" a_30) (fun v_self =>
        (match p2_branch (p2_gt (p2_len v__enc_assertions) (PInt (0)%Z)) with
-       | BTrue => (py_bindh (fun n_32 => (PList [(PExc n_32); v_self])) (p2_attr v_self "response") (fun v_self_response =>
-       (py_bindh (fun n_31 => (PList [(PExc n_31); v_self])) (p2_setattr v_self_response "encrypted_assertion" (PList [])) (fun v_self_response =>
-       (py_bindh (fun n_30 => (PList [(PExc n_30); v_self])) v_self_response (fun a_28 =>
-       (py_bindh (fun n_29 => (PList [(PExc n_29); v_self])) (p2_setattr v_self "response" a_28) (fun v_self =>
-       (k_97 v__enc_assertions v_resp v_decr_text v_decr_text_old v_all_assertions v_self_response v_self v_assertion)))))))))
-       | BFalse => (k_97 v__enc_assertions v_resp v_decr_text v_decr_text_old v_all_assertions v_self_response v_self v_assertion)
-       | BExc n_33 => (PList [(PExc n_33); v_self])
+       | BTrue => (py_bindh (fun n_35 => (PList [(PExc n_35); v_self])) (p2_attr v_self "response") (fun v_self_response =>
+       (py_bindh (fun n_34 => (PList [(PExc n_34); v_self])) (p2_setattr v_self_response "encrypted_assertion" (PList [])) (fun v_self_response =>
+       (py_bindh (fun n_33 => (PList [(PExc n_33); v_self])) v_self_response (fun a_31 =>
+       (py_bindh (fun n_32 => (PList [(PExc n_32); v_self])) (p2_setattr v_self "response" a_31) (fun v_self =>
+       (k_100 v__enc_assertions v_resp v_decr_text v_decr_text_old v_all_assertions v_self_response v_self v_assertion)))))))))
+       | BFalse => (k_100 v__enc_assertions v_resp v_decr_text v_decr_text_old v_all_assertions v_self_response v_self v_assertion)
+       | BExc n_36 => (PList [(PExc n_36); v_self])
        | BErr => PErr
        end))))) | _ => PErr end
        | BrkS _ => PErr
-       | RetS r_40 => r_40
-       | ExcS n_41 st_38 => match st_38 with [v_assertion; v_self] => (PList [(PExc n_41); v_self]) | _ => PErr end
+       | RetS r_43 => r_43
+       | ExcS n_44 st_41 => match st_41 with [v_assertion; v_self] => (PList [(PExc n_44); v_self]) | _ => PErr end
        end))))))))))))) in
       (match p2_branch (p2_gt (p2_len v_all_assertions) (PInt (0)%Z)) with
-      | BTrue => (py_bindh (fun n_58 => (PList [(PExc n_58); v_self])) (p2_iter_check v_all_assertions) (fun it_52 =>
-      (match pyfor2 (py_iter2 it_52) [] (fun st_53 x_54 => match st_53 with [] =>
-       (let v_tmp_ass := x_54 in
+      | BTrue => (py_bindh (fun n_61 => (PList [(PExc n_61); v_self])) (p2_iter_check v_all_assertions) (fun it_55 =>
+      (match pyfor2 (py_iter2 it_55) [] (fun st_56 x_57 => match st_56 with [] =>
+       (let v_tmp_ass := x_57 in
        (match p2_branch (p2_and (p2_attr v_tmp_ass "advice") (p2_attr (p2_attr v_tmp_ass "advice") "encrypted_assertion")) with
        | BTrue => (ExcS "AdviceNotTied" [])
        | BFalse => (NextS [])
-       | BExc n_57 => (ExcS n_57 [])
+       | BExc n_60 => (ExcS n_60 [])
        | BErr => (RetS PErr)
        end))
       | _ => RetS PErr end) with
-      | NextS st_53 => match st_53 with [] => (k_59 tt) | _ => PErr end
+      | NextS st_56 => match st_56 with [] => (k_62 tt) | _ => PErr end
       | BrkS _ => PErr
-      | RetS r_55 => r_55
-      | ExcS n_56 st_53 => match st_53 with [] => (PList [(PExc n_56); v_self]) | _ => PErr end
+      | RetS r_58 => r_58
+      | ExcS n_59 st_56 => match st_56 with [] => (PList [(PExc n_59); v_self]) | _ => PErr end
       end)))
-      | BFalse => (k_59 tt)
-      | BExc n_59 => (PList [(PExc n_59); v_self])
+      | BFalse => (k_62 tt)
+      | BExc n_62 => (PList [(PExc n_62); v_self])
       | BErr => PErr
       end)) in
      (match p2_branch (p2_attr v_resp "assertion") with
-     | BTrue => (py_bindh (fun n_61 => (PList [(PExc n_61); v_self])) (p2_add v_all_assertions (p2_attr v_resp "assertion")) (fun v_all_assertions =>
-     (k_62 v_all_assertions)))
-     | BFalse => (k_62 v_all_assertions)
-     | BExc n_62 => (PList [(PExc n_62); v_self])
+     | BTrue => (py_bindh (fun n_64 => (PList [(PExc n_64); v_self])) (p2_add v_all_assertions (p2_attr v_resp "assertion")) (fun v_all_assertions =>
+     (k_65 v_all_assertions)))
+     | BFalse => (k_65 v_all_assertions)
+     | BExc n_65 => (PList [(PExc n_65); v_self])
      | BErr => PErr
      end)))) | _ => PErr end
      | BrkS _ => PErr
-     | RetS r_66 => r_66
-     | ExcS n_67 st_65 => match st_65 with [v_decr_text_old; v_decr_text; v_resp; v__enc_assertions] => (PList [(PExc n_67); v_self]) | _ => PErr end
+     | RetS r_69 => r_69
+     | ExcS n_70 st_68 => match st_68 with [v_decr_text_old; v_decr_text; v_resp; v__enc_assertions] => (PList [(PExc n_70); v_self]) | _ => PErr end
      end)))) | _ => PErr end
      | BrkS _ => PErr
-     | RetS r_84 => r_84
-     | ExcS n_85 st_83 => match st_83 with [v_decr_text_old; v_decr_text; v_resp] => (PList [(PExc n_85); v_self]) | _ => PErr end
+     | RetS r_87 => r_87
+     | ExcS n_88 st_86 => match st_86 with [v_decr_text_old; v_decr_text; v_resp] => (PList [(PExc n_88); v_self]) | _ => PErr end
      end)))))))
-     | BFalse => (k_97 v__enc_assertions v_resp v_decr_text v_decr_text_old v_all_assertions v_self_response v_self v_assertion)
-     | BExc n_97 => (PList [(PExc n_97); v_self])
+     | BFalse => (k_100 v__enc_assertions v_resp v_decr_text v_decr_text_old v_all_assertions v_self_response v_self v_assertion)
+     | BExc n_100 => (PList [(PExc n_100); v_self])
      | BErr => PErr
      end)) in
     (match p2_branch (p2_attr (p2_attr v_self "response") "assertion") with
-    | BTrue => (py_bindh (fun n_106 => (PList [(PExc n_106); v_self])) (p2_iter_check (p2_attr (p2_attr v_self "response") "assertion")) (fun it_99 =>
-    (match pyfor2 (py_iter2 it_99) [v_assertion] (fun st_100 x_101 => match st_100 with [v_assertion] =>
-     (let v_assertion := x_101 in
-     (match p2_branch (p2_not (py_bind v_assertion (fun a_104 => (assertion_ext v_self a_104 (PBool false))))) with
+    | BTrue => (py_bindh (fun n_109 => (PList [(PExc n_109); v_self])) (p2_iter_check (p2_attr (p2_attr v_self "response") "assertion")) (fun it_102 =>
+    (match pyfor2 (py_iter2 it_102) [v_assertion] (fun st_103 x_104 => match st_103 with [v_assertion] =>
+     (let v_assertion := x_104 in
+     (match p2_branch (p2_not (py_bind v_assertion (fun a_107 => (assertion_ext v_self a_107 (PBool false))))) with
      | BTrue => (RetS (PList [(PBool false); v_self]))
      | BFalse => (NextS [v_assertion])
-     | BExc n_105 => (ExcS n_105 [v_assertion])
+     | BExc n_108 => (ExcS n_108 [v_assertion])
      | BErr => (RetS PErr)
      end))
     | _ => RetS PErr end) with
-    | NextS st_100 => match st_100 with [v_assertion] => (k_107 v_assertion) | _ => PErr end
+    | NextS st_103 => match st_103 with [v_assertion] => (k_110 v_assertion) | _ => PErr end
     | BrkS _ => PErr
-    | RetS r_102 => r_102
-    | ExcS n_103 st_100 => match st_100 with [v_assertion] => (PList [(PExc n_103); v_self]) | _ => PErr end
+    | RetS r_105 => r_105
+    | ExcS n_106 st_103 => match st_103 with [v_assertion] => (PList [(PExc n_106); v_self]) | _ => PErr end
     end)))
-    | BFalse => (k_107 v_assertion)
-    | BExc n_107 => (PList [(PExc n_107); v_self])
+    | BFalse => (k_110 v_assertion)
+    | BExc n_110 => (PList [(PExc n_110); v_self])
     | BErr => PErr
     end)) in
    (match p2_branch (p2_eq (p2_attr v_self "context") (PStr "AuthnQuery")) with
-   | BTrue => (k_113 v_n_assertions v_n_assertions_enc)
-   | BFalse => (py_bindh (fun n_112 => (PList [(PExc n_112); v_self])) (p2_len (p2_attr (p2_attr v_self "response") "assertion")) (fun v_n_assertions =>
-   (py_bindh (fun n_111 => (PList [(PExc n_111); v_self])) (p2_len (p2_attr (p2_attr v_self "response") "encrypted_assertion")) (fun v_n_assertions_enc =>
+   | BTrue => (k_116 v_n_assertions v_n_assertions_enc)
+   | BFalse => (py_bindh (fun n_115 => (PList [(PExc n_115); v_self])) (p2_len (p2_attr (p2_attr v_self "response") "assertion")) (fun v_n_assertions =>
+   (py_bindh (fun n_114 => (PList [(PExc n_114); v_self])) (p2_len (p2_attr (p2_attr v_self "response") "encrypted_assertion")) (fun v_n_assertions_enc =>
    (match p2_branch (p2_and (p2_ne v_n_assertions (PInt (1)%Z)) (p2_and (p2_ne v_n_assertions_enc (PInt (1)%Z)) (p2_is_none (p2_attr v_self "assertion")))) with
-   | BTrue => (py_bindh (fun n_109 => (PList [(PExc n_109); v_self])) (p2_fconcat [PStr "Invalid number of assertions in Response: "; p2_str (p2_add v_n_assertions v_n_assertions_enc)]) (fun _ =>
+   | BTrue => (py_bindh (fun n_112 => (PList [(PExc n_112); v_self])) (p2_fconcat [PStr "Invalid number of assertions in Response: "; p2_str (p2_add v_n_assertions v_n_assertions_enc)]) (fun _ =>
    (PList [(PExc "InvalidAssertion"); v_self])))
-   | BFalse => (k_113 v_n_assertions v_n_assertions_enc)
-   | BExc n_110 => (PList [(PExc n_110); v_self])
+   | BFalse => (k_116 v_n_assertions v_n_assertions_enc)
+   | BExc n_113 => (PList [(PExc n_113); v_self])
    | BErr => PErr
    end)))))
-   | BExc n_113 => (PList [(PExc n_113); v_self])
+   | BExc n_116 => (PList [(PExc n_116); v_self])
    | BErr => PErr
    end)).
